@@ -14,7 +14,9 @@ pub mod c13;
 pub mod c14;
 pub mod c16;
 pub mod c17;
+pub mod c18;
 pub mod c19;
+pub mod c20;
 
 use std::time::Instant;
 
@@ -46,6 +48,10 @@ pub fn run(id: &str, replay: Option<&str>) -> i32 {
         ("C16", Some(p)) => c16::replay(p),
         ("C17", None) => c17::run(started),
         ("C17", Some(p)) => c17::replay(p),
+        ("C18", None) => c18::run(started),
+        ("C18", Some(p)) => c18::replay(p),
+        ("C20", None) => c20::run(started),
+        ("C20", Some(p)) => c20::replay(p),
         ("C19", None) => c19::run(started),
         ("C19", Some(p)) => c19::replay(p),
         ("C14", None) => c14::run(started),
